@@ -17,6 +17,31 @@ except ImportError:           # concrete side
     z3 = None
 
 REGISTRY = {}
+LEMMAS = []       # Lemma instances
+BOUNDED = []      # bounded stand-ins (run on the real code under /venv/bin/python; never counted as proved)
+
+
+class Lemma:
+    """a contract without code: proved Dafny-style (explicit unfoldings and induction-hypothesis instances)"""
+    name = None
+    properties = ()
+
+    def vcs(self, ctx):
+        """yield (name, hyps, goal)"""
+        return []
+
+
+def lemma(cls):
+    LEMMAS.append(cls())
+    return cls
+
+
+def bounded(name, properties, bound):
+    def deco(fn):
+        BOUNDED.append(dict(name=name, properties=tuple(properties), fn=fn, bound=bound,
+                            module=fn.__module__, func=fn.__name__))
+        return fn
+    return deco
 
 
 def contract(cls):
@@ -281,3 +306,34 @@ def model_value(m, t):
         n = m.eval(z3.Length(t), model_completion=True).as_long()
         return [model_value(m, t[i]) for i in range(n)]
     raise ValueError('cannot project %s' % s)
+
+
+# ---------------------------------------------------------------- harness functions (compositions of real calls)
+class Harness:
+    """a few lines of Python, written in the contract file, that only CALL the real functions
+    (e.g. `Message.from_bytes(m.bytes(), time=m.time) == m`).  Symbolically the text is interpreted by pyvc
+    like any other function; concretely it is compiled by CPython.  It contains no logic of its own."""
+    def __init__(self, src, globs=None):
+        import textwrap
+        self.src = textwrap.dedent(src)
+        self.globs = globs or {}
+        self._fn = None
+
+    def concrete(self):
+        if self._fn is None:
+            ns = dict(self.globs)
+            exec(compile(self.src, '<harness>', 'exec'), ns)
+            self._fn = [v for k, v in ns.items() if callable(v) and getattr(v, '__code__', None) is not None
+                        and v.__code__.co_filename == '<harness>'][-1]
+        return self._fn
+
+    def symbolic(self):
+        import ast
+        from .values import Closure
+        node = [n for n in ast.parse(self.src).body if isinstance(n, ast.FunctionDef)][-1]
+        g = dict(self.globs)
+        g.setdefault('__builtins__', __builtins__)
+        return Closure(node, {}, g, 'harness:' + node.name)
+
+    def get(self, h):
+        return self.symbolic() if h.sym else self.concrete()
